@@ -6,6 +6,8 @@ import time
 import traceback
 
 from .core import AnalysisError, Program, Report, finish, DEFAULT_REPO
+from .core import load_known as core_load_known
+from .core import _match_known as core_match_known
 
 
 def main(argv=None):
@@ -33,16 +35,45 @@ def main(argv=None):
             raise
         prog = Program(args.repo)
         report = Report(prop, args.tier)
+        gave_up = None
         try:
             mod.run(prog, report, args.tier)
         except AnalysisError as e:
+            gave_up = e
+        trouble = gave_up is not None or any(
+            o.status == 'violation' for o in report.obs)
+        if trouble and prog.assert_changed:
+            # Some functions are their reference versions plus added
+            # assertions.  Re-run with those analysed in the reference
+            # shape: if the trouble disappears it came from the unfamiliar
+            # shape, and what remains open is whether an added assertion can
+            # fail -- not a verdict.
+            prog2 = Program(args.repo, assume_added_asserts=True)
+            report2 = Report(prop, args.tier)
+            gave_up2 = None
+            try:
+                mod.run(prog2, report2, args.tier)
+            except AnalysisError as e:
+                gave_up2 = e
+            known = core_load_known()
+            open2 = [o for o in report2.obs if o.status == 'violation'
+                     and core_match_known(o, prop, known) is None]
+            if gave_up2 is None and not open2:
+                (rel, q), (added, _) = sorted(prog.assert_changed.items())[0]
+                raise AnalysisError(
+                    '%s:%s is the reference function plus added assertions '
+                    '(%s); the rules are satisfied on the reference shape, '
+                    'whether an added assertion can fail is not decided' %
+                    (rel, q, '; '.join(added[:3])))
+            prog, report, gave_up = prog2, report2, gave_up2
+        if gave_up is not None:
             # an extractor gave up part-way.  If rules that did run already
             # found violations, report those (exit 1); otherwise this is not
             # a verdict (exit 2).
             if not any(o.status == 'violation' for o in report.obs):
-                raise
-            report.note('analysis incomplete: %s' % e)
-            print('ANALYSIS-INCOMPLETE property=%s: %s' % (prop, e))
+                raise gave_up
+            report.note('analysis incomplete: %s' % gave_up)
+            print('ANALYSIS-INCOMPLETE property=%s: %s' % (prop, gave_up))
             report.floors.clear()
         rc = finish(report, prog, mod.LEVEL, t0, seed, mod.META)
         if rc == 0 and any(n.startswith('analysis incomplete')
